@@ -596,3 +596,73 @@ def reads_local_of_field(n, fnum):
             if field_num(x.fn.tu.types[x.decl['t']]['c']) == fnum:
                 return True
     return False
+
+
+# --------------------------------------------------------------------------- bounds from guards
+INF = float('inf')
+
+
+def same_expr(a, b):
+    """structural equality of two expressions (resolved tree text after stripping casts)"""
+    return a.strip(casts=True).text() == b.strip(casts=True).text()
+
+
+def sizeof_or_const(n):
+    s = n.strip(casts=True)
+    return s.value
+
+
+def interval_from_guards(fn, site, expr, lo=-INF, hi=INF, match=None):
+    """Refine [lo, hi] for the value of `expr` at `site` using the branch decisions that dominate the
+    site and compare an expression structurally equal to `expr` with a constant.
+    match(node) may replace structural equality."""
+    match = match or (lambda x: same_expr(x, expr))
+    for (atom, pol) in controlling_atoms(fn, site):
+        s = atom.strip(casts=True)
+        if s.k != 'BinaryOperator' or s.op not in ('<', '>', '<=', '>=', '==', '!='):
+            continue
+        l, r = s.children
+        op = s.op
+        if match(l) and r.strip(casts=True).value is not None:
+            c = r.strip(casts=True).value
+        elif match(r) and l.strip(casts=True).value is not None:
+            c = l.strip(casts=True).value
+            op = {'<': '>', '>': '<', '<=': '>=', '>=': '<=', '==': '==', '!=': '!='}[op]
+        else:
+            continue
+        if not pol:
+            op = {'<': '>=', '>': '<=', '<=': '>', '>=': '<', '==': '!=', '!=': '=='}[op]
+        if op == '<':
+            hi = min(hi, c - 1)
+        elif op == '<=':
+            hi = min(hi, c)
+        elif op == '>':
+            lo = max(lo, c + 1)
+        elif op == '>=':
+            lo = max(lo, c)
+        elif op == '==':
+            lo, hi = max(lo, c), min(hi, c)
+        elif op == '!=':
+            if c == lo:
+                lo += 1
+            if c == hi:
+                hi -= 1
+    return lo, hi
+
+
+def array_capacity(n):
+    """number of elements of the array a pointer expression decays from (local/member array), else None"""
+    s = n.strip(casts=True)
+    if s.k == 'UnaryOperator' and s.op == '&':
+        s = s.children[0].strip(casts=True)
+        if s.k == 'ArraySubscriptExpr' and s.children[1].strip(casts=True).value == 0:
+            s = s.children[0].strip(casts=True)
+    t = s.type
+    if t and t['k'] == 'array' and 'n' in t:
+        return t['n']
+    # ImplicitCast ArrayToPointerDecay was stripped: look at the declared type
+    if s.k in ('DeclRefExpr', 'MemberExpr') and s.decl is not None:
+        dt = s.fn.tu.types[s.decl['t']]
+        if dt['k'] == 'array' and 'n' in dt:
+            return dt['n']
+    return None
